@@ -5,25 +5,28 @@ FLOWS = ["c31_batch", "c31_snapshot", "c31_state", "c31_two"]
 
 
 class C31(vlib.Spec):
-    model_vo = ["theories/HydroB/ModelSlice.vo"]
+    model_vo = ["theories/HydroB/ModelSlice.vo", "theories/HydroB/SimSlice.vo"]
     props_vo = "theories/Props/C31.vo"
     theorems = ["C31_batches_partition_partial", "C31_production_batches", "C31_snapshots_monotone_partial",
-                "C31_hooks_same_slice_partial", "C31_state_carries"]
+                "C31_hooks_same_slice_partial", "C31_state_carries", "C31_sim_batches_partition",
+                "C31_sim_batches_conserved_partial", "C31_sim_snapshots_monotone_partial", "C31_sim_hooks_same_tick",
+                "C31_sim_slice_columns"]
     crate, group, binary = "h_hydro_b", "hydro", "h_hydro_b"
-    imports = ("From Coq Require Import List NArith.\nFrom HV Require Import HydroB.ModelSlice.\n"
+    imports = ("From Coq Require Import List NArith.\nFrom HV Require Import Sim.Model HydroB.ModelSlice HydroB.SimSlice.\n"
                "Import ListNotations.")
     level = "other"
     explanation = (
-        "Coq theorems, each for ALL scripts of arrivals and hook decisions, about a model of the slice hooks: the "
-        "batches of a TotalOrder batch hook (sim StreamHook; production = release-everything script) followed by the "
-        "queue equal the input as lists; the versions released by a snapshot hook (sim SingletonHook, incl. skipping "
-        "and re-release) never decrease; a slice record is the synchronous product of one release per hook; a state "
-        "hook reads in slice i+1 what slice i wrote. Tie: four slice corpus flows compiled through the PRODUCTION "
-        "embedded builder and driven with `run_tick_sync` on random partitions of random inputs, per-slice "
-        "batches/snapshots/state recorded and compared exactly with the production model, plus the executable form "
-        "of the four clauses evaluated on the implementation's outputs. NOT done (hence `other`, not `proof`): the "
-        "simulator path (`flow.sim().exhaustive`) is not executed by this check -- the sim hook models are proved "
-        "about but tied to sim/runtime.rs only by engine Sim (C36-C38); NoOrder and keyed hooks are not modelled here.")
+        "Coq theorems for ALL arrival/decision scripts, over (1) engine Sim's model of the REAL simulator hooks and "
+        "run_hooks: TotalOrder batches ++ queue = input as lists; for every batch hook kind (TotalOrder, NoOrder, keyed) "
+        "each element is in exactly one batch or still queued; SingletonHook snapshot versions never decrease; run_hooks "
+        "gives every hook of a slice exactly one decide-and-release step per tick and a hook's column is its own "
+        "trajectory; (2) the production model (batch = identity) and the state hook (slice i+1 reads what slice i wrote). "
+        "Tie: (a) four slice corpus flows through the PRODUCTION embedded builder under random partitions, per-slice "
+        "batches/snapshots/state compared exactly; (b) slices of 1-4 hooks of random kinds on the REAL simulator hook "
+        "objects under the real run_hooks (harness h_sim, scripted bolero driver) over multi-round random arrival / "
+        "decision scripts, compared round by round with Sim.Model.run_hooks, and the executable clauses evaluated on the "
+        "implementation's releases. Still `other`: provable parts are missing (per-key order of keyed TotalOrder batches "
+        "over a trajectory, KeyedSingleton/Passthrough snapshot hooks) and flow.sim().exhaustive itself is not executed.")
     trusted_base = ["coqc 8.16.1 kernel (vm_compute for case evaluation only)",
                     "hand-written Gallina model coq/theories/HydroB/ModelSlice.v",
                     "harness/h_hydro_b (production embedded code generation + tick driver), tools/hydrob.py"]
@@ -34,7 +37,7 @@ class C31(vlib.Spec):
             "non-empty ones")
 
     def n_cases(self, tier):
-        return 240 if tier == "quick" else 4000
+        return 120 if tier == "quick" else 3000
 
     def gen(self, rng, tier, n):
         cases = []
@@ -48,21 +51,52 @@ class C31(vlib.Spec):
                 for t, y in zip(ticks, b):
                     t["b"] = y
             cases.append({"flow": flow, "ticks": ticks})
+        # slices on the real simulator hooks (harness h_sim): 1..4 hooks of random kinds
+        for _ in range(n // 2):
+            kinds = [rng.choice(hydrob.SIM_KINDS) for _ in range(rng.range(1, 4))]
+            sim = hydrob.gen_sim_tick(rng, kinds, rng.range(1, 5 if tier == "quick" else 8))
+            cases.append({"k": "echo", "sim": sim})
+        hydrob.sim_results(self.ctx, cases)
         return cases
 
     def to_coq(self, case, res):
+        if case.get("k") == "echo":
+            return hydrob.c31_sim_term(case["sim"], hydrob.sim_result(self.ctx, case))
         return hydrob.c31_term(case, res)
 
+    def describe(self, case, res):
+        if case.get("k") == "echo":
+            return {"case": case, "impl": hydrob.sim_result(self.ctx, case)}
+        return {"case": case, "impl": res}
+
     def shrink(self, case):
+        if case.get("k") == "echo":
+            sim = case["sim"]
+            out = []
+            for i in range(len(sim["rounds"]) - 1, 0, -1):
+                out.append({"k": "echo", "sim": dict(sim, rounds=sim["rounds"][:i])})
+            return out
         return hydrob.shrink_ticks(case)
 
     def nontrivial(self, case, res):
+        if case.get("k") == "echo":
+            r = hydrob.sim_result(self.ctx, case).get("rounds", [])
+            return sum(1 for x in r if any(x.get("emitted", []))) >= 2
         ne = [i for i, t in enumerate(case["ticks"]) if any(t.values())]
         return len(ne) >= 2
 
     def distribution(self, cases, results):
-        d = {"by_flow": {}, "ticks": {}, "items": {}, "empty_ticks": 0}
+        d = {"by_flow": {}, "ticks": {}, "items": {}, "empty_ticks": 0, "sim_cases": 0, "sim_hook_kinds": {},
+             "sim_rounds": 0, "sim_decisions": 0}
         for c in cases:
+            if c.get("k") == "echo":
+                d["sim_cases"] += 1
+                for h in c["sim"]["hooks"]:
+                    d["sim_hook_kinds"][h["kind"]] = d["sim_hook_kinds"].get(h["kind"], 0) + 1
+                rr = hydrob.sim_result(self.ctx, c).get("rounds", [])
+                d["sim_rounds"] += len(rr)
+                d["sim_decisions"] += sum(len(x.get("ds_used", [])) for x in rr)
+                continue
             d["by_flow"][c["flow"]] = d["by_flow"].get(c["flow"], 0) + 1
             nt = len(c["ticks"])
             d["ticks"][nt] = d["ticks"].get(nt, 0) + 1
